@@ -123,6 +123,15 @@ func (d Data) root(name string) (vals.V, bool) {
 
 // field is one path step on a value description.
 func field(v vals.V, name string) (vals.V, bool) {
+	if isSeq(v.K) {
+		// a numeric step indexes a sequence (items[0] / items.0)
+		if n, err := strconv.Atoi(name); err == nil {
+			if e := elems(v); n >= 0 && n < len(e) {
+				return e[n], true
+			}
+		}
+		return vals.V{}, false
+	}
 	switch v.K {
 	case "map":
 		f, ok := v.M[name]
